@@ -1,5 +1,6 @@
 import CookModel.Lemmas.TextLaws
 import CookModel.Lemmas.LexLaws
+import CookModel.Lemmas.SimBlocks
 /-
   C17  Line endings, comments and blank space do not change the recipe.
 
@@ -86,6 +87,33 @@ theorem C17_crlf_visible_text (cs : CharSpec) (hcs : CrlfSpec cs) (s : List Char
       (buildText off (((lex cs s).drop i).take j)).text := by
   have h := lex_crlf_run_vis cs hcs s hs i j
   exact ⟨h, by rw [buildText_text, buildText_text, h]⟩
+
+/-- **CRLF at block level.**  Under the conditions of `C17_crlf` (no backslash in the input) the
+    block splitter (`PullParser::next_block`) cuts the token stream of the CRLF-converted input
+    into the same number of blocks as the stream of the input, and corresponding blocks have the
+    same number of tokens, related one to one by `CrlfTok`: same kind, same text except for
+    newline tokens (`"\n"` → `"\r\n"`), line comments (may get the CR appended) and block comments
+    (converted inside).  `LRel R l m` : `l` and `m` have the same length and `R l[i] m[i]` for all `i`.
+    So blank-line detection, single-line (`>>`, `=`) detection, multi-line continuation and the
+    trimming of trailing newlines all decide identically; only byte offsets differ. -/
+theorem C17_crlf_blocks (cs : CharSpec) (hcs : CrlfSpec cs) (s : List Char) (hs : CrlfSafe s) (off off' : Nat) :
+    LRel (LRel CrlfTok)
+      (allBlocks ((lexFrom cs off' (crlf s)).length + 1) (lexFrom cs off' (crlf s)))
+      (allBlocks ((lexFrom cs off s).length + 1) (lexFrom cs off s)) := crlf_blocks cs hcs s hs off off'
+
+/-- the same in the vocabulary of `C17_crlf`: the lists of blocks are equal after erasing offsets
+    and the texts of newline/comment tokens (`tokAbs`) -/
+theorem C17_crlf_blocks_abs (cs : CharSpec) (hcs : CrlfSpec cs) (s : List Char) (hs : CrlfSafe s) (off off' : Nat) :
+    (allBlocks ((lexFrom cs off' (crlf s)).length + 1) (lexFrom cs off' (crlf s))).map (·.map tokAbs) =
+    (allBlocks ((lexFrom cs off s).length + 1) (lexFrom cs off s)).map (·.map tokAbs) :=
+  (C17_crlf_blocks cs hcs s hs off off').map_eq _ _ (fun _ _ h => h.map_eq _ _ (fun _ _ ht => crlfTok_tokAbs ht))
+
+/-- The splitter law behind it, for ANY two token streams related token by token by a relation that
+    preserves kinds (e.g. streams that differ in offsets, in the spelling of newlines, in the text
+    of comments or in the amount of whitespace inside whitespace tokens): same blocks. -/
+theorem C17_splitter_kinds_only (R : Tok → Tok → Prop) (hR : ∀ a b, R a b → a.kind = b.kind)
+    (fuel : Nat) (l m : List Tok) (h : LRel R l m) : LRel (LRel R) (allBlocks fuel l) (allBlocks fuel m) :=
+  sim_allBlocks hR fuel h
 
 /-! non-vacuity: a character table satisfying `CrlfSpec`, an input satisfying `CrlfSafe` on which
     `crlf` does something, and the excluded shape -/
